@@ -87,8 +87,8 @@ CLAIMED['C10'] = dict(
    design_ref="5/C10")
 CLAIMED['C17'] = dict(
    category='proof',
-   text="Kernel-checked for the decoder, ALL strings / tables / flags, no side condition (props/C17.v, proofs/AttrFacts.v): decoder(x, attribute=False) equals decoder(x, attribute=True) with the attribution erased - same outcome (value or exception class), same string, same output indices and tokens (simulation between the two runs through derivation, ring pass and writer). Not theorems, decided per input on every run: non-interference of the encoder and truthfulness of the entries (token found at the reported output index, contributing symbol at the reported input position, atom attributed to its creating symbol and enclosing branch symbols, SELFIES atom symbol attributed to its SMILES atom token), judged with independent tokenisations; attribution lists of both directions are compared entry by entry with the model (multi-fragment, [nop]-padded, truncated indices, many rings).",
-   technique="Coq proof (simulation: erasing attribution commutes with every decoder step) + exact correspondence of attribution lists with the model + independent-tokenisation oracle",
+   text="Kernel-checked for the decoder, ALL strings / tables / flags, no side condition (props/C17.v, proofs/AttrFacts.v): decoder(x, attribute=False) equals decoder(x, attribute=True) with the attribution erased - same outcome (value or exception class), same string, same output indices and tokens (simulation between the two runs through derivation, ring pass and writer); and the decoder's entries are TRUTHFUL (C17_decoder_attribution_truthful; proofs/AttrOut.v, AttrIn.v, AttrFinal.v): every output token is found in the output string ending at the reported character index, every contributing input token is the symbol at the reported position of the input ([nop] and '.' not counted), and every atom entry is attributed to its enclosing branch symbols followed by the atom symbol that created it. Not theorems, decided per input on every run: the encoder side (non-interference and SELFIES atom symbol attributed to its SMILES atom token), judged with independent tokenisations; attribution lists of both directions are compared entry by entry with the model (multi-fragment, [nop]-padded, truncated indices, many rings).",
+   technique="Coq proof (simulation: erasing attribution commutes with every decoder step; invariants for the truthfulness of every stored attribution through derivation, ring pass and writer) + exact correspondence of attribution lists with the model + independent-tokenisation oracle",
    design_ref="5/C17")
 CLAIMED['C19'] = dict(
    text="Kernel-checked theorem about the cache protocol (props/C19.v): for every schedule of atomic cache operations (lru_cache call, dict get, dict set) of any number of concurrent calls, with arbitrary evictions, a coherent cache stays coherent and every call evaluates to its serial result; the shared mutable state found in the current source by the translator equals the modelled list (a new shared cache or scratch object breaks this equality). Assumed, not modelled: atomicity of those operations under the GIL. Thread stress (8 threads, 1 us switch interval, cold caches) vs serial run vs model as supporting evidence.",
